@@ -585,6 +585,17 @@ def run_scenario(tree, wpath, sc, maxq=None, world=None):
         for k, v in w.controls.items():
             w.h.control(k, v)
         w.limits = tuple(sc["limits"])
+    w.extra_env = {k: v for k, v in getattr(w, "extra_env", {}).items() if not k.startswith(("SI_", "QMAILQUEUE"))}
+    if sc.get("qq_refuse"):
+        # the daemon runs behind a QMAILQUEUE filter that refuses its first injections (the failure notices) with the scripted exit statuses
+        # and then lets everything through to the real qmail-queue: an obligation to bounce survives every refusal, permanent ones included
+        import shutil
+        sd = os.path.join(w.h.dir, "qq-filter")
+        shutil.rmtree(sd, ignore_errors=True)
+        os.makedirs(sd)
+        w.extra_env.update({"QMAILQUEUE": sandbox.STANDIN, "SI_DIR": sd, "SI_EXIT_SEQ": ",".join(str(x) for x in sc["qq_refuse"]) + ",0",
+                            "SI_PASS": tree.path("qmail-queue") if tree is not None else w.tree.path("qmail-queue")})
+        res.classes.add("queue_filter_refuses_notice")
     led = Ledger(sc, res, w)
     led.alrm_pending = {}
     w.partial = None
